@@ -116,7 +116,7 @@ func scale60(r [][2]int) [][2]int {
 var c16Unclosed, c16AsCollection bool
 
 func c16Smart(c *ctx, fn string, box [4]int, in [][][][2]int, o int) {
-	s := float64(c16S)
+	s := float64(c16S) * figScale()
 	b := toBound(box, s)
 	g := mpOf(in, s)
 	if r0 := in[0][0]; c16Unclosed && len(r0) >= 4 && r0[0] == r0[len(r0)-1] &&
